@@ -597,13 +597,18 @@ func (e *Evaluator) evalDotExp(node *ast.DotExp, env *object.Env) object.Object 
 }
 
 func (e *Evaluator) evalString(node *ast.StringLiteral, _ *object.Env) object.Object {
-	str := html.EscapeString(node.Value)
+	return &object.Str{Value: escapeLiteral(node.Value)}
+}
+
+// escapeLiteral escapes the text of a string written in a template
+func escapeLiteral(text string) string {
+	str := html.EscapeString(text)
 
 	// unescape single and double quotes
 	str = strings.ReplaceAll(str, "&#34;", `"`)
 	str = strings.ReplaceAll(str, "&#39;", `'`)
 
-	return &object.Str{Value: str}
+	return str
 }
 
 func (e *Evaluator) evalPrefixExp(node *ast.PrefixExp, env *object.Env) object.Object {
@@ -667,7 +672,9 @@ func (e *Evaluator) evalObjectLiteral(node *ast.ObjectLiteral, env *object.Env) 
 			return valueObj
 		}
 
-		pairs[key] = valueObj
+		// a key written as a string is escaped like any other string
+		// of the template, it is printed with the object
+		pairs[escapeLiteral(key)] = valueObj
 	}
 
 	return &object.Obj{Pairs: pairs}
